@@ -459,10 +459,12 @@ def run(ctx):
             ctx.obligation("translator:T5 accepts o3.Legendre's FX graph", False, repr(e)[-1500:])
         ok, out = ctx.lake_build(["E3nnVerif.Props.C11"])
         ctx.obligation("build:Props.C11", ok, out[-3000:])
-        okl, outl = ctx.lake_build(["E3nnVerif.Props.C11Leg"])
+        okl, outl = ctx.lake_build(["E3nnVerif.Props.C11Leg", "E3nnVerif.Props.C11Ang"] + (["E3nnVerif.Props.C11AngExt"] if ctx.tier == "thorough" else []), timeout=7000)
         if okl:
             for l in range(LEG_LMAX + 1):
                 ctx.obligation(f"cert:Leg.row{l} (decide +kernel: orthonormality of the regenerated Legendre rows of degree {l})", True)
+            for l in range(0, 12 if ctx.tier == "thorough" else 9):
+                ctx.obligation(f"cert:Ang.L{l} (decide +kernel: sh_l(angles_to_xyz) = sqrt(4 pi) * sha x Legendre as polynomials mod sin^2+cos^2=1)", True)
             ctx.obligation("build:Props.C11Leg", True)
         else:
             bad = sorted(set(re.findall(r"E3nnVerif\.[A-Za-z0-9_.]+", " ".join(x for x in outl.splitlines() if "✖" in x or "error" in x.lower()))))
@@ -477,10 +479,11 @@ def run(ctx):
         files = [f for f in files if os.path.exists(str(f))]
         files += [common_path("lean/E3nnVerif/Model/Legendre.lean"), common_path("lean/E3nnVerif/Sound/LegendreChecks.lean"),
                   common_path("lean/E3nnVerif/Props/C11Leg.lean"), common_path("lean/E3nnVerif/Cert/Leg/All.lean")]
-        files += sorted(glob.glob(str(common_path("lean/E3nnVerif/Cert/Leg/Row*.lean"))))
+        files += sorted(glob.glob(str(common_path("lean/E3nnVerif/Cert/Leg/Row*.lean")))) + sorted(glob.glob(str(common_path("lean/E3nnVerif/Cert/Ang/L*.lean"))))
+        files += [common_path("lean/E3nnVerif/Model/AngChecks.lean"), common_path("lean/E3nnVerif/Sound/AngChecks.lean"), common_path("lean/E3nnVerif/Props/C11Ang.lean")]
         files = [f for f in files if os.path.exists(str(f))]
         if ok and okl:
-            ctx.audit(["E3nnVerif.Props.C11", "E3nnVerif.Props.C11Leg", "E3nnVerif.Cert.Leg.All"], files=files)
+            ctx.audit(["E3nnVerif.Props.C11", "E3nnVerif.Props.C11Leg", "E3nnVerif.Props.C11Ang", "E3nnVerif.Cert.Leg.All"], files=files)
         elif ok:
             ctx.audit(["E3nnVerif.Props.C11"], files=files)
         else:
